@@ -51,8 +51,11 @@ def tasks_for(prop, tier):
             cfgs = [{}]
         if callable(cfgs):
             cfgs = cfgs(tier)
+        from . import contract as C
+
+        idx = C.REGISTRY[cc.target].index(cc)
         for cfg in cfgs:
-            out.append((cc.__module__, cc.__name__, cfg))
+            out.append((cc.target, idx, cfg))
     return out
 
 
@@ -67,7 +70,8 @@ def _ob_key(ob):
 
 def run_task(job):
     """Worker: explore one contract/config and solve its obligations in-process."""
-    modname, clsname, cfg, timeout_ms, want_smt = job
+    target, cidx, cfg, timeout_ms, want_smt = job
+    modname, clsname = target, str(cidx)
     sys.path.insert(0, VERIF) if VERIF not in sys.path else None
     from . import solve, verify
 
@@ -86,9 +90,12 @@ def run_task(job):
     t0 = time.time()
     try:
         verify.ensure_repo_on_path()
-        mod = importlib.import_module(modname)
-        cc = getattr(mod, clsname)
-        res = verify.run_contract(cc, cfg, budget_s=getattr(cc, "budget_s", 900))
+        load_contracts()
+        from . import contract as C
+
+        cc = C.REGISTRY[target][cidx]
+        out["task"] = f"{cc.__module__}.{cc.__name__}"
+        res = verify.run_contract(cc, cfg, budget_s=getattr(cc, "budget_s", 900), name=cc.meta.get("name"))
         out["name"] = res.name
         out["target"] = res.target
         out["source_hash"] = res.source_hash
